@@ -533,6 +533,17 @@ func genMeta(r *runner) {
 			r.do(mk("config-decode", "in", js(VS{T: "p", E: &e}), "target", "config"))
 		}
 		r.do(mk("config-normalize", "in", js(sc)))
+		// every scalar kind as a key of a map[any]any (YAML allows non-string keys, e.g. `.nan: 1`)
+		mk1 := VS{T: "mi", K: []VS{sc}, L: []VS{sv("x")}}
+		for _, tg := range []string{"config", "mapp", "anyp"} {
+			r.do(mk("config-decode", "in", js(mk1), "target", tg))
+		}
+		for _, k := range []string{"map", "mapa", "any", "sub"} {
+			r.do(mk("config-decode", "in", js(VS{T: "m", K: []VS{sv(k)}, L: []VS{mk1}}), "target", "config"))
+		}
+		r.do(mk("config-normalize", "in", js(mk1)))
+		r.do(mk("metadata-decodemetadata", "in", js(mk1), "target", "meta"))
+		r.do(mk("metadata-decodemetadata", "in", js(VS{T: "m", K: []VS{sv("map")}, L: []VS{mk1}}), "target", "meta"))
 	}
 	for _, s := range []string{`{"str":"a","dur":"5s"}`, `{"str":1}`, `[1]`, `{`, ``, `null`, `{"str":{"a":1}}`, `{"STR":"a","str":"b"}`} {
 		r.do(mk("metadata-decodemetadata", "in", js(sv(s)), "target", "meta"))
